@@ -21,10 +21,13 @@ PY = sys.executable
 
 # runs per tier (fixed, so that a VERIF_SEED explores the same seeds anywhere)
 BUDGET = {
-    "C10": {"quick": 36000, "thorough": 600000},
-    "C13": {"quick": 16000, "thorough": 300000},
-    "C14": {"quick": 36000, "thorough": 600000},
-    "C15": {"quick": 16000, "thorough": 300000},
+    # thorough: longer histories (to 120 ops), instruction-level interrupts, the real torch optimiser, 5 % real-
+    # subprocess restarts, 2000 re-executed runs for the determinism self-test, then the mutant suite:
+    # about 20-30 min per property on 16 cores (VERIF_RUNS overrides the run count for soaks)
+    "C10": {"quick": 36000, "thorough": 80000},
+    "C13": {"quick": 16000, "thorough": 40000},
+    "C14": {"quick": 36000, "thorough": 80000},
+    "C15": {"quick": 16000, "thorough": 40000},
 }
 SELFTEST = {"quick": 64, "thorough": 2000}
 SHRINK_PER_WORKER = 4
@@ -247,7 +250,7 @@ def matches_known(sig, prop, known):
 def run_check(prop, tier, verif_seed, nruns=None, nworkers=None, write_evidence=True, mutants=False):
     t0 = time.time()
     nworkers = nworkers or min(16, os.cpu_count() or 1)
-    n = nruns or BUDGET[prop][tier]
+    n = nruns or int(os.environ.get("VERIF_RUNS") or 0) or BUDGET[prop][tier]
     cap = 1500 if tier == "quick" else 6 * 3600
     indices = list(range(n))
     print("[%s] tier=%s VERIF_SEED=%d runs=%d workers=%d repo=%s" % (prop, tier, verif_seed, n, nworkers, core.REPO))
